@@ -304,6 +304,9 @@ class C14(Spec):
         "distinct by (recipe, faults); compared: items:<count> / adm:<message family> / exception type"
     )
 
+    ORDER_SENSITIVE = ("nestedpack", "chna_nested", "matrix_direct", "matrix_decode", "matrix_encdec", "matrix_pre",
+                       "nested", "comp")
+
     # ---- case stream ----
 
     def recipes(self, ctx):
@@ -323,20 +326,31 @@ class C14(Spec):
             base = D.build(rec)
             for f in D.fault_sites(base):
                 yield rec, [f]
+            # declaration order is not significant in ADM but is what order-dependent validation bugs hinge on:
+            # documents with nested / matrix packs also run with the pack list reversed (sub-pack before parent,
+            # encode pack after decode pack, ...), again with every single fault at every site
+            if rec[0] in self.ORDER_SENSITIVE and (not ctx.quick or rec[2] == 0):
+                o = ("order", "apf", -1)
+                yield rec, [o]
+                for f in D.fault_sites(D.build_faulty(rec, [o])):
+                    yield rec, [o, f]
         ndouble = 5000 if ctx.quick else 60000
-        cache = {}
         n = 0
         while n < ndouble:
             rec = ctx.rng.choice(recs)
-            if rec not in cache:
-                cache[rec] = D.fault_sites(D.build(rec))
-            f1 = ctx.rng.choice(cache[rec])
-            d1 = D.build_faulty(rec, [f1])
-            if d1 is None:
+            pre = []
+            doc = D.build(rec)
+            if ctx.rng.random() < 0.3:  # a random declaration-order variant first
+                kind = ctx.rng.choice(D.ORDER_KINDS)
+                if len(getattr(doc.adm, D.LISTS[kind])) > 1:
+                    pre = [("order", kind, ctx.rng.choice([-1, ctx.rng.randrange(1000)]))]
+                    D.apply_fault(doc, pre[0])
+            f1 = ctx.rng.choice(D.fault_sites(doc))
+            if not D.apply_fault(doc, f1):
                 continue
-            f2 = ctx.rng.choice(D.fault_sites(d1))
+            f2 = ctx.rng.choice(D.fault_sites(doc))
             n += 1
-            yield rec, [f1, f2]
+            yield rec, pre + [f1, f2]
 
     # ---- direct predicates on the real code ----
 
@@ -428,6 +442,7 @@ class C14(Spec):
 
     def correspond(self, ctx):
         self._nhits = {}
+        self._seeds = []  # (recipe, faults) on which model and code disagree: seeds of the guided search
         driver = Driver("c14driver", "Earverif.Driver.C14")
         lines, metas = [], []
         for rec, faults in self.stream(ctx):
@@ -437,8 +452,10 @@ class C14(Spec):
                 continue
             r, calls = run_real_observed(doc)
             cls = real_class(r)
-            nf = len(faults)
+            nf = sum(1 for f in faults if f[0] != "order")
             ctx.count("faults:%d" % nf)
+            if len(faults) != nf:
+                ctx.count("declaration-order-variant")
             ctx.count("style:v%d" % rec[1])
             ctx.count("doc:" + rec[0])
             for f in faults:
@@ -484,8 +501,54 @@ class C14(Spec):
             if ok:
                 ctx.validated()
             else:
+                self._seeds.append((rec, list(faults), model, cls))
                 ctx.disagree("select_rendering_items vs Earverif.Validate.selectItems",
                              {"doc": rec, "faults": faults}, model, cls)
+
+    def _guided(self, ctx):
+        """Disagreement-guided failing-input search (DESIGN 1.3): documents on which the model and the code
+        disagree are where the code departs from what was proved; take them -- and their declaration-order
+        variants -- as seeds and inject every single additional fault at every site on top, evaluating the direct
+        predicates on the real code."""
+        seeds, seen = [], set()
+        # fewest faults first, then one seed per (document kind, fault kinds, model outcome, real outcome)
+        for rec, faults, model, cls in sorted(self._seeds, key=lambda s: (len(s[1]), s[0])):
+            key = (rec[0], tuple(D.fault_kind(f) + "@" + D.site_kind(f) for f in faults), model, cls)
+            if key in seen:
+                continue
+            seen.add(key)
+            seeds.append((rec, faults))
+        budget = 15000 if ctx.quick else 120000
+        per_seed = max(1, budget // max(1, min(len(seeds), 40)))
+        n = 0
+        for rec, faults in seeds[:40 if ctx.quick else 400]:
+            base = D.build_faulty(rec, faults)
+            if base is None:
+                continue
+            variants = [[]] + [[o] for o in D.order_variants(base, ctx.rng)]
+            m = 0
+            for var in variants:
+                doc = D.build_faulty(rec, faults + var)
+                if doc is None:
+                    continue
+                for f in D.fault_sites(doc):
+                    fs = faults + var + [f]
+                    d2 = D.build_faulty(rec, fs)
+                    if d2 is None:
+                        continue
+                    r = D.run_real(d2)
+                    n += 1
+                    m += 1
+                    ctx.case(("guided", rec, fs), True)
+                    ctx.count("search:guided")
+                    self._predicate(ctx, rec, fs, d2, r)
+                    if m >= per_seed:
+                        break
+                if m >= per_seed:
+                    break
+            if n >= budget:
+                break
+        ctx.count("search:guided-seeds", min(len(seeds), 40 if ctx.quick else 400))
 
     def search(self, ctx, deep):
         # the predicates already ran on every correspondence case (they do not need the driver); when the
@@ -499,6 +562,8 @@ class C14(Spec):
                 r = D.run_real(doc)
                 ctx.case(("search", rec, faults), bool(faults))
                 self._predicate(ctx, rec, faults, doc, r)
+        if getattr(self, "_seeds", None):
+            self._guided(ctx)
         if not deep:
             return
         # triple faults (beyond the property's quantifier for the model, still inside "any document")
